@@ -141,7 +141,7 @@ def record(ck, n_grid, n_float):
                  "normalize": bool(rs.randint(3) == 0),
                  "eps": float([1e-10, 1e-6][rs.randint(2)]),
                  "beta2": float([1.0, 0.999, 0.9, 0.5, 0.99][rs.randint(5)]),
-                 "scale": float(10.0 ** rs.randint(-4, 4)), "eager": i % 4 == 1})
+                 "scale": float(10.0 ** rs.randint(-4, 4)), "eager": i % 4 == 1, "companion": i % 3 == 2})
   # low-precision parameters, long histories: the second-moment recursion must not lose increments once
   # an accumulator is 2^8 (bfloat16) / 2^11 (float16) times larger than the incoming squared gradient
   for i in range(max(4, n_float // 15)):
